@@ -70,6 +70,20 @@ pub fn classes(case: &MpcCase) -> Vec<String> {
 }
 
 pub fn test_case(case: &MpcCase) -> Result<CaseInfo, Fail> {
+    // one case in four (decided by the case itself) runs with every tracing span and event enabled
+    let verbose = case.circ.insts.len() <= 60 && hash_of(&serde_json::to_string(case).unwrap()) % 4 == 0;
+    crate::sim::exec::VERBOSE_TRACING.with(|v| v.set(verbose));
+    let r = test_case_inner(case);
+    crate::sim::exec::VERBOSE_TRACING.with(|v| v.set(false));
+    r.map(|mut i| {
+        if verbose {
+            i.classes.push("verbose_tracing".into());
+        }
+        i
+    })
+}
+
+fn test_case_inner(case: &MpcCase) -> Result<CaseInfo, Fail> {
     let run = run_mpc(case, Adversary::default(), &ExecCfg { record_probes: false, ..Default::default() });
     if run.res.outcomes.iter().any(|o| matches!(o, crate::sim::exec::Outcome::Budget)) {
         return Ok(CaseInfo { undecided: true, ..Default::default() });
